@@ -126,7 +126,7 @@ def read_analysis(results_dir, ninputs, pos=None):
     return [p[0] if p[0] == p[1] else -2 for p in per_input], [p[2] for p in per_input]
 
 
-def launch_through_script(cli, d, cluster, N, C, trials, job, delete):
+def launch_through_script(cli, d, cluster, N, C, trials, job, delete, cores_omitted=False):
     """`panqec generate-cluster-script` writes the script for the scheduler; the line
     of it that starts the work is executed the way the scheduler's shell would
     for array index `job`: variables expanded, words split, `panqec` = cli."""
@@ -138,7 +138,8 @@ def launch_through_script(cli, d, cluster, N, C, trials, job, delete):
     script = os.path.join(d, f'run_{cluster}.sh')
     cli.generate_cluster_script.callback(
         header_file=header, output_file=script, data_dir=d, cluster=cluster, n_nodes=N,
-        wall_time='0:10:00', memory='1G', trials=trials, n_cores=C, delete_existing=delete)
+        wall_time='0:10:00', memory='1G', trials=trials, n_cores=None if cores_omitted else C,
+        delete_existing=delete)
     env = {'SGE_TASK_ID': str(job), 'SLURM_ARRAY_TASK_ID': str(job), 'PBS_ARRAY_INDEX': str(job),
            'JOB_ID': '1', 'SLURM_JOB_ID': '1', 'PBS_JOBID': '1'}
     with open(script) as f:
@@ -157,6 +158,11 @@ def replay(args):
     os.dup2(devnull, 2)          # tqdm bars of the task processes
     cfg = beh['cfg']
     I, N, C = cfg['I'], cfg['N'], cfg['C']
+    all_cpus = os.sched_getaffinity(0)
+    if beh.get('affinity'):
+        # a node shared with other jobs: the scheduler pins this job to a few CPUs only
+        # (the machine still has all of them)
+        os.sched_setaffinity(0, set(sorted(os.sched_getaffinity(0))[:beh['affinity']]))
     d = os.path.join(workroot, f'b{idx}')
     ind = os.path.join(d, 'inputs')
     os.makedirs(ind, exist_ok=True)
@@ -222,7 +228,8 @@ def replay(args):
                             data_dir=d, trials=st['trials'], n_nodes=N, job_idx=st['job'],
                             n_cores=C, delete_existing=ev['delete'])
                     else:
-                        launch_through_script(cli, d, ev['via'], N, C, st['trials'], st['job'], ev['delete'])
+                        launch_through_script(cli, d, ev['via'], N, C, st['trials'], st['job'], ev['delete'],
+                                              cores_omitted=bool(beh.get('cores_omitted')))
             except BaseException as ex:      # noqa
                 raised = f'{type(ex).__name__}: {ex}'[:160]
             finally:
@@ -237,6 +244,7 @@ def replay(args):
         return {'cfg': cfg, 'T0': beh['T0'], 'steps': steps}
     finally:
         cli.multiprocessing = real_mp
+        os.sched_setaffinity(0, all_cpus)
         shutil.rmtree(d, ignore_errors=True)
 
 
